@@ -1293,6 +1293,8 @@ class ProcessPoolExecutor(Executor):
                 p = self._context.Process(target=_process_worker, args=args)
             p._worker_exit_lock = worker_exit_lock
             p.start()
+            if _verif.ENABLED:
+                _verif.point("spawn.started")
             self._processes[p.pid] = p
         mp.util.debug(
             f"Adjusted process count to {self._max_workers}: "
